@@ -1,12 +1,15 @@
 CONSTANTS
   Dev = {}
-  RD = 2
-  MaxRetries = 1
+  TickMs = 10000
+  Confs = {}
   MaxDgrams = 0
   Faults = {}
-  MRT = 3
   MReqs = {1}
   MaxConn = 3
+  MsConfs <- GMsConfs
+  XConfs <- GXConfsT
+  OpNames <- AllOps
+  TcOnly = FALSE
   Mode = "dgst"
   MaxOps = 9
   PathMode = TRUE
